@@ -20,7 +20,7 @@ RULE = ('Objective family (SPD quadratic with condition up to 1e8, quadratic+qua
         'failure exit, or a boundary / negative-curvature step.')
 ASSUMPTIONS = ['the dense Cholesky stand-in for scikit-sparse (shims/sksparse) is the preconditioner back end',
                'rounding bound for descent: 64*n*ulp*(f_abs(x_k)+f_abs(x_k+1)) with f_abs the sum of absolute terms',
-               'success on convex problems is asserted on the sub-domain: condition <= 1e3, |x0-x*| <= 50, default settings, exact preconditioner']
+               'success on convex problems is asserted on the sub-domain: Hessian spectrum over minimiser, start point and every reported iterate within a condition number of 1e3, |x0-x*| <= 50, default settings, exact preconditioner']
 
 NS = [1, 2, 3, 5, 8, 12]
 _O = {}
